@@ -130,6 +130,10 @@ def cloud(rng, kind, d, n):
         b[:, 0] = np.abs(rng.normal(0.0, 0.015, n - n // 2))
         b[:, 1 % d] = np.clip(rng.normal(0.8, 0.02, n - n // 2), 0.0005, 0.9995)
         return np.clip(np.vstack([a, b]), 0.0, 0.999999)
+    if kind == 'shell':       # an octant of a thick spherical shell around a corner: many overlapping pieces, cut by the faces
+        v = np.abs(rng.normal(size=(n, d)))
+        v /= np.linalg.norm(v, axis=1)[:, None]
+        return np.clip(v * (0.75 + 0.1 * rng.random(n))[:, None], 0.0005, 0.9995)
     if kind == 'two':
         return np.vstack([blob(0.25, 0.03, n // 2), blob(0.75, 0.03, n - n // 2)])
     if kind == 'wrapped':
